@@ -610,6 +610,10 @@ pub fn bases(quick: bool) -> Vec<(AbsReplay, &'static str)> {
 		a
 	};
 	let mut v = vec![(mk((1, 0), false), "v1.0"), (mk((2, 2), false), "v2.2"), (mk((3, 16), true), "v3.16")];
+	// a small replay with a doubled Game End: the reader classifies what follows the first one
+	let mut de = mk((0, 1), false);
+	de.ends = 2;
+	v.push((de, "v0.1-double-end"));
 	if !quick {
 		v.push((mk((2, 0), false), "v2.0"));
 		v.push((mk((3, 0), false), "v3.0"));
